@@ -26,7 +26,9 @@ import (
 )
 
 var zzvPool = []string{"p@v1.0.0-go1.21.0-linux-amd64-2024-01-01.v1.count", "x.v1.count", ".v1.count", "x.v2.count", "x.v1.count.bak", "xv1.count", "x.v1.counts",
-	"2024-01-07.json", "local.2024-01-07.json", "x.json", ".json", "x.json.lock", "xjson", "x.JSON", "weekends", "upload.token", "mode"}
+	"2024-01-07.json", "local.2024-01-07.json", "x.json", ".json", "x.json.lock", "xjson", "x.JSON", "weekends", "upload.token", "mode",
+	// sub-directories (trailing slash) named like data files: an empty one, and one holding a file
+	"sub.json/", "sub.v1.count/inner.json"}
 
 func zzvIsData(dir, name string) bool {
 	switch dir {
@@ -46,6 +48,11 @@ func zzvPopulate(root string, tree zzvTree, mode string) {
 		d := filepath.Join(root, dir)
 		os.MkdirAll(d, 0o777)
 		for _, n := range names {
+			if strings.HasSuffix(n, "/") {
+				os.MkdirAll(filepath.Join(d, n), 0o777)
+				continue
+			}
+			os.MkdirAll(filepath.Dir(filepath.Join(d, n)), 0o777)
 			os.WriteFile(filepath.Join(d, n), []byte("content of "+dir+"/"+n), 0o666)
 		}
 	}
@@ -97,8 +104,8 @@ func zzvCheckStep(fail func(sig, format string, args ...any), cmd string, before
 			kind, path, _ := strings.Cut(d, " ")
 			dir, name := filepath.Split(path)
 			dir = strings.TrimSuffix(dir, "/")
-			if kind != "removed" || !zzvIsData(dir, name) {
-				fail("clean-touched-other", "clean: %s", d)
+			if kind != "removed" || !zzvIsData(dir, name) || !strings.HasPrefix(before[path], "file:") {
+				fail("clean-touched-other", "clean: %s (was %.12s)", d, before[path])
 			}
 		}
 		for path, v := range before {
@@ -153,8 +160,8 @@ func TestVerifC19(t *testing.T) {
 	res := vrep.New("C19", p)
 	defer res.Guard()
 	base, _ := vrep.Scratch("c19")
-	res.Rule = "E3: every subset of size <= 2 (thorough 3) of a 17-name pool (data files, near misses, weekends, token, lock) in local/ x every subset of size <= 1 (2) in upload/, with fixed near-miss files in the root and debug/, then clean; E2: every command sequence of length <= 3 over {on, local, off, clean, env, library SetMode(on), SetMode(bogus)} from 6 mode-file states; conformance: depth-1 cases replayed through the built gotelemetry binary; classes = (files removed, mode transitions)"
-	res.Assumptions = []string{"directories whose names match the data-file patterns are a don't-care", "the date is today's (UTC) at the time of the call"}
+	res.Rule = "E3: every subset of size <= 2 (thorough 3) of a 19-name pool (data files, near misses, weekends, token, lock, sub-directories named like data files) in local/ x every subset of size <= 1 (2) in upload/, with fixed near-miss files in the root and debug/, then clean; E2: every command sequence of length <= 3 over {on, local, off, clean, env, library SetMode(on), SetMode(bogus)} from 6 mode-file states; conformance: depth-1 cases replayed through the built gotelemetry binary; classes = (files removed, mode transitions)"
+	res.Assumptions = []string{"the date is today's (UTC) at the time of the call"}
 	subsets := func(max int) [][]string {
 		var out [][]string
 		var gen func(start int, cur []string)
